@@ -4,13 +4,18 @@
    Proved: ImportJSON returns an error or a spec for EVERY document - never a panic (documents nested deeper than 8
    levels exhaust the model's fuel and are excluded); the name tables are mutually inverse on the exportable
    vocabulary (7 encodings, 27 prefixes), padding descriptions import back to the same padder, and the model's tables
-   agree with the live maps regenerated from specs/builder.go on every run. The structural round trip export -> import
-   = identity for whole spec trees is checked by correspondence (the model and the library agree on the exported
-   document and on the imported spec for generated and mutated documents) and by the oracle (re-imported spec equal,
-   byte-identical re-export, identical pack/unpack behaviour); its general theorem is not yet proved (partial). *)
+   agree with the live maps regenerated from specs/builder.go on every run. The structural round trip: for every field
+   specification tree of the expressible vocabulary (expressible, spelled out in Proofs/SpecJsonRoundtrip.v) ImportJSON
+   of the exported document is the tree itself (C17_export_import_field, any nesting depth within the fuel), and for
+   every message specification the import of the export is exactly the rows of that specification
+   (C17_export_import_spec); the rows determine the specification (C17_rows_determine_spec), so the re-imported
+   specification IS the exported one: it packs and unpacks identically and exports to the identical document
+   (C17_reexport_identical). That the library and the model agree on the exported document and on the imported spec is
+   the correspondence check (generated and mutated documents) and the oracle (re-imported spec equal, byte-identical
+   re-export, identical pack/unpack behaviour). *)
 From Coq Require Import Strings.String.
 From Iso Require Import Model.Base Model.Padding Model.Encoding Model.Prefix Model.Bitmap Model.Spec Model.MessageOps Model.SpecJson
-     Proofs.BaseLemmas Proofs.SpecJsonProofs Gen.BuilderTables.
+     Model.Field Proofs.BaseLemmas Proofs.SpecJsonProofs Proofs.SpecJsonRoundtrip Gen.BuilderTables.
 Open Scope list_scope.
 
 Theorem C17_import_total : forall d, no_panic (import_spec d).
@@ -65,3 +70,43 @@ Example C17_ex_roundtrip : exists j, export_field s17 = Ok j /\
   show_sfield (match import_field 8 j with Ok sf => sf | _ => SFBitmap {| bm_len := 0; bm_auto := true; bm_enc := EncASCII; bm_pref := PNone |} end) =
   list_byte_of_string "(C ASCII.LLL 999 (T 2 ASCII L x30 ByInt 0 nil) ((x31 (P Numeric BCD BCD.LL 6 N x00 D)) (x32 (C Binary.L 255 (B 2 Hex Hex.Fixed) ((x33 (P String EBCDIC EBCDIC.Fixed 4 R x20 D)))))))".
 Proof. eexists. split; [vm_compute; reflexivity|vm_compute; reflexivity]. Qed.
+
+(* ---- export then import is the identity ---- *)
+Theorem C17_export_import_field : forall s, expressible s -> forall d, export_field s = Ok d ->
+  forall fuel, (depth s <= fuel)%nat -> import_field fuel d = Ok (embed s).
+Proof. intros s Hx d Hd. exact (proj1 (export_import_field s Hx d Hd)). Qed.
+Print Assumptions C17_export_import_field.
+
+Theorem C17_export_import_spec : forall S d,
+  exportable_pspec (ms_mti S) -> In (bm_enc (ms_bm S)) exportable_encs -> In (bm_pref (ms_bm S)) importable_prefs -> 0 <= bm_len (ms_bm S) < two63 ->
+  (forall id s, In (id, s) (ms_fields S) -> 0 <= id <= max_int /\ expressible s /\ (depth s <= 8)%nat) ->
+  export_spec S = Ok d -> import_spec d = Ok (spec_rows S).
+Proof. exact export_import_spec. Qed.
+Print Assumptions C17_export_import_spec.
+
+Theorem C17_rows_determine_spec : forall S S', spec_rows S = spec_rows S' -> S = S'.
+Proof. exact spec_rows_inj. Qed.
+Print Assumptions C17_rows_determine_spec.
+
+(* whatever specification S' the imported rows are turned back into (spec_rows S' = the rows imported from S's export),
+   it is S: same packing, same unpacking, same export *)
+Theorem C17_reexport_identical : forall S S' d,
+  exportable_pspec (ms_mti S) -> In (bm_enc (ms_bm S)) exportable_encs -> In (bm_pref (ms_bm S)) importable_prefs -> 0 <= bm_len (ms_bm S) < two63 ->
+  (forall id s, In (id, s) (ms_fields S) -> 0 <= id <= max_int /\ expressible s /\ (depth s <= 8)%nat) ->
+  export_spec S = Ok d -> import_spec d = Ok (spec_rows S') ->
+  S' = S /\ export_spec S' = Ok d.
+Proof.
+  intros S S' d H1 H2 H3 H4 H5 Hd Hi. rewrite (export_import_spec S d H1 H2 H3 H4 H5 Hd) in Hi.
+  assert (S = S') by (apply spec_rows_inj; change (spec_rows S) with ((0, (kind_name (ps_kind (ms_mti S)), SFPrim (ms_mti S))) :: (1, (Q "Bitmap", SFBitmap (ms_bm S))) :: imported (ms_fields S)); congruence). subst S'. split; [reflexivity|exact Hd].
+Qed.
+Print Assumptions C17_reexport_identical.
+
+(* the hypotheses are satisfiable: s17 is expressible, of depth 3 *)
+Example C17_ex_expressible : expressible s17 /\ depth s17 = 3%nat.
+Proof.
+  split; [|reflexivity]. cbn [s17 expressible expr_mode exportable_pspec ps_enc ps_pref ps_kind ps_packer ps_len ps_pad tg_skip tg_prefunk tg_sort tg_len tg_pad tg_enc
+                              bm_auto bm_enc bm_pref bm_len map fst pad_ascii].
+  unfold exportable_encs, importable_prefs, two63. cbn [In flat_map map app].
+  repeat split; try reflexivity; try discriminate; try lia; try (cbn; lia); intuition (try discriminate; try reflexivity).
+  all: cbn; repeat (first [left; reflexivity | right]).
+Qed.
